@@ -147,6 +147,8 @@ def binop(ex, op, a, b, st, ctx):
             b = b.to_z3() if isinstance(b, Poly) else b
         else:
             pa, pb = to_poly(a), to_poly(b)
+            if pa is None or pb is None:
+                raise Havoc("polynomial arithmetic with %s" % type(b if pa is not None else a).__name__)
             if op == "Add":
                 return pa + pb
             if op == "Sub":
